@@ -101,8 +101,8 @@ def r2(R2, cfg, F):
         R2.missing(cfg, 'asset::load_and_record')
         return
     rc = [c for c in b.calls() if c.callee and c.callee.best == REC + 'record']
-    aa = [c for c in b.calls() if c.callee and c.callee.best == 'hot_reloading::HotReloader::add_asset']
-    ok = len(rc) == 1 and len(aa) == 1
+    aa = [c for c in b.calls() if c.callee and c.callee.best in ('hot_reloading::HotReloader::add_asset', 'hot_reloading::HotReloader::add_owned_asset')]
+    ok = len(rc) == 1 and len(aa) >= 1
     why = 'shape'
     if ok:
         okc = [c for c in b.calls() if c.callee and c.callee.best == 'std::result::Result::<T, E>::is_ok'
@@ -112,15 +112,16 @@ def r2(R2, cfg, F):
         if ok:
             sw = [bb for bb, t in b.terms() if t['k'] == 'switch' and b.access_path(t['discr']) == ['call@bb%d' % okc[0].bb]]
             true = [d for d, lab in b.edges(sw[0]) if lab != 'sw:0'] if len(sw) == 1 else []
-            ok = len(true) == 1 and aa[0].bb not in b.reachable([0], removed_edges=[(sw[0], true[0])]) \
-                and not (b.reachable(true, removed_blocks=[aa[0].bb]) & set(b.return_blocks()))
+            ok = len(true) == 1 and all(x.bb not in b.reachable([0], removed_edges=[(sw[0], true[0])]) for x in aa) \
+                and not (b.reachable(true, removed_blocks=[x.bb for x in aa]) & set(b.return_blocks()))
             why = 'a successful load can return without registering, or a failed one registers'
-            if ok:
-                a = [b.access_path(x) for x in aa[0].args]
-                ok = a[1] == ['arg2'] and a[2] == ['call@bb%d' % rc[0].bb, '1'] and a[3] == ['arg3']
-                ds = b.downcast_source(aa[0].args[0])
+            for reg in (aa if ok else []):
+                a = [b.access_path(x) for x in reg.args]
+                ok = ok and a[1] == ['arg2'] and a[2] == ['call@bb%d' % rc[0].bb, '1'] and a[3] == ['arg3']
+                ds = b.downcast_source(reg.args[0])
                 ok = ok and bool(ds) and ds[1] == 'Some'
-                why = 'add_asset receives %s (want id, deps recorded by this load, typ)' % a[1:]
+                why = '%s receives %s (want id, deps recorded by this load, typ)' % (reg.callee.name, a[1:])
+            if ok:
                 # the returned entry is the one produced by that record() call
                 rets = [s for _, _, s in b.assigns() if s['place']['l'] == 0]
                 ok = ok and any((b.access_path(s['rv']['op']) or [])[:2] == ['call@bb%d' % rc[0].bb, '0'] for s in rets if s['rv']['k'] == 'use')
@@ -179,10 +180,24 @@ def r4(R4, cfg, F):
             roots = b.origins(somes[0]['rv']['ops'][0])
             ok = ('call', rc[0].bb) in roots
         R4.check(ok, cfg, b.path, 'returns-deps-recorded-by-the-reload', 'reload_untyped must return the dependencies recorded while reloading', b.loc())
-    ib = F.body(D + 'DepsGraph::insert')
+    # the graph-update routine is found by what it does: the DepsGraph method computing old.difference(new)
+    cands = [c.body for c in F.calls_to('^' + re.escape(REC + 'Dependencies::difference') + '$') if c.body.path.startswith(D + 'DepsGraph::')]
+    ib = cands[0] if len(cands) == 1 else None
     if not ib:
+        R4.missing(cfg, 'the DepsGraph method that diffs old and new dependencies')
+        return
+    # DepsGraph::insert (what reload and add_asset call) reaches it with its own arguments and Some(typ)
+    pub = F.body(D + 'DepsGraph::insert')
+    if not pub:
         R4.missing(cfg, 'DepsGraph::insert')
         return
+    if pub.path != ib.path:
+        cs = [c for c in pub.calls() if c.callee and c.callee.best == ib.path]
+        ok = len(cs) == 1 and [pub.access_path(a) for a in cs[0].args[:3]] == [['arg1'], ['arg2'], ['arg3']]
+        if ok:
+            ag = agg_stmts(pub, cs[0].args[3])
+            ok = len(ag) == 1 and ag[0]['rv'].get('variant_name') == 'Some' and pub.access_path(ag[0]['rv']['ops'][0]) == ['arg4']
+        R4.check(ok, cfg, pub.path, 'insert-forwards-to-graph-update', 'DepsGraph::insert must forward (key, deps, Some(typ)) to the graph-update routine', pub.loc())
     pt = make_pt(r'Dependencies::iter$', r'IntoIterator.*::into_iter$', r'Iterator>::next$', r'Iterator::cloned$', r'Iterator::collect$', r'Dependencies::difference$')
     ins = [c for c in ib.calls() if c.callee and c.callee.name == 'insert' and 'HashSet' in c.callee.best]
     rem = [c for c in ib.calls() if c.callee and c.callee.name == 'remove' and 'HashSet' in c.callee.best]
